@@ -14,6 +14,14 @@ def m_name_leak(v, params):
     # (com ..) as an unbound name and comes back quoted in the residual (or as data in a constant answer)
     idents = set(re.findall(r"\b(?:P|L|S|Z|KONST)\d+\b", v["args"]))
     r = v["repl"]
+    # the leak at its source: the evaluator's own record of a (com ..) whose code mentions a free variable of the open
+    # expression that is neither a parameter of the code it is compiled against (the REPL has none) nor rebound around it.
+    # What becomes of the leaked name afterwards (it may be consumed: (l "P6") is nil, (if "P1" 3 ..) is 3) does not matter.
+    for ev in r.get("events") or []:
+        if ev.get("ev") == "com":
+            covered = set(ev.get("args") or []) | set(ev.get("rebound") or []) | set(ev.get("bound_inside") or [])
+            if any(n.split("_$_")[0] in idents and n not in covered for n in ev.get("free") or []):
+                return True
     if "const" in r:
         return cc.contains_name(r["const"], idents)
     if "residual" in r:
